@@ -52,18 +52,15 @@ pub(crate) fn repair_index<S: Open>(
     let be = repo.dbe();
     let mut checker = PackChecker::new(repo)?;
 
+    // index files which need to be replaced; they are replaced only after the packs to re-read are indexed again
+    let mut changed_index_files = Vec::new();
     let p = repo.progress_counter("reading index...");
     for index in be.stream_all::<IndexFile>(&p)? {
         let (index_id, index) = index?;
         let (new_index, changed) = checker.check_pack(index, opts.read_all);
         match (changed, dry_run) {
             (true, true) => info!("would have modified index file {index_id}"),
-            (true, false) => {
-                if !new_index.packs.is_empty() || !new_index.packs_to_delete.is_empty() {
-                    _ = be.save_file(&new_index)?;
-                }
-                be.remove(FileType::Index, &index_id, true)?;
-            }
+            (true, false) => changed_index_files.push((index_id, new_index)),
             (false, _) => {} // nothing to do
         }
     }
@@ -108,6 +105,14 @@ pub(crate) fn repair_index<S: Open>(
     }
     indexer.write().unwrap().finalize()?;
     p.finish();
+
+    // now that all re-read packs are indexed, replace the modified index files
+    for (index_id, new_index) in changed_index_files {
+        if !new_index.packs.is_empty() || !new_index.packs_to_delete.is_empty() {
+            _ = be.save_file(&new_index)?;
+        }
+        be.remove(FileType::Index, &index_id, true)?;
+    }
 
     Ok(())
 }
